@@ -26,12 +26,13 @@ class TranslationError(Exception):
 # external callees: result is "fresh" (new object) or "alias" (may be a view of / the same object as some argument or the
 # receiver); "write" = mutates the receiver in place.  None of the others mutates an argument.
 FRESH_FUNCS = {
-    "len", "range", "int", "float", "abs", "min", "max", "isinstance", "hasattr", "type", "set", "sorted", "zip", "enumerate", "list", "tuple", "str",
+    "len", "range", "int", "float", "abs", "isinstance", "hasattr", "type", "str", "bool", "round",
     "super", "eval", "__import__", "ValueError", "Exception", "NotImplementedError", "NotFittedError", "TypeError", "format",
     "ndim", "identity", "pinv", "qr", "solve", "lstsq", "lil_matrix", "warn", "DummyClassifier", "LinearDiscriminantAnalysis", "MultiTaskLasso",
     "OrthogonalMatchingPursuit", "check_is_fitted",
 }
-ALIAS_FUNCS = {"check_array", "getattr"}          # may hand back (a view of) an argument
+# may hand back (a view of) an argument, or a container / iterator whose items are (views of) the items of an argument
+ALIAS_FUNCS = {"check_array", "getattr", "enumerate", "zip", "list", "tuple", "sorted", "set", "reversed", "iter", "dict", "min", "max", "next"}
 NP_FRESH = {"abs", "arange", "argmax", "argsort", "array", "cos", "sin", "count_nonzero", "dot", "isin", "issubdtype", "logical_not", "matmul", "mean", "ndim",
             "nonzero", "outer", "ravel_multi_index", "shape", "sign", "sqrt", "stack", "sum", "unravel_index", "where", "zeros", "zeros_like", "max", "min",
             "median", "eye", "ones", "copy", "concatenate", "linspace", "full", "empty", "empty_like", "ones_like", "full_like", "hstack", "vstack",
@@ -41,10 +42,10 @@ NP_FRESH = {"abs", "arange", "argmax", "argsort", "array", "cos", "sin", "count_
             "logical_and", "logical_or", "logical_xor", "isclose", "sign", "hypot", "arctan2", "deg2rad", "rad2deg", "tan", "searchsorted", "bincount", "indices"}
 NP_WRITE_FIRST = {"copyto", "put", "place", "putmask", "fill_diagonal", "put_along_axis"}      # mutate their first argument
 NP_ALIAS = {"squeeze", "transpose", "asarray", "ascontiguousarray", "asfortranarray", "atleast_2d", "ravel", "reshape", "asanyarray"}
-METHOD_FRESH = {"copy", "tolist", "any", "all", "sum", "max", "min", "mean", "format", "lower", "keys", "items", "isnull", "issubset", "basename", "dirname",
+METHOD_FRESH = {"copy", "tolist", "any", "all", "sum", "max", "min", "mean", "format", "lower", "keys", "isnull", "issubset", "basename", "dirname",
                 "expanduser", "splitext", "default_rng", "permutation", "norm", "det", "transform", "predict", "catch_warnings", "filterwarnings", "warn",
-                "astype", "dot", "strip", "split", "join", "startswith", "endswith", "count", "index"}
-METHOD_ALIAS = {"conj", "reshape", "to_numpy", "get", "fit", "squeeze", "ravel", "view", "transpose", "values", "dropna"}   # dropna(inplace=...) is rejected below
+                "dot", "strip", "split", "join", "startswith", "endswith", "count", "index"}
+METHOD_ALIAS = {"conj", "reshape", "to_numpy", "get", "fit", "squeeze", "ravel", "view", "transpose", "values", "dropna", "items", "astype", "flatten"}   # dropna(inplace=...) is rejected below
 METHOD_WRITE = {"append", "insert", "extend", "sort", "fill", "setflags", "update", "setdefault", "pop", "remove", "clear", "resize", "put", "itemset"}
 VIEW_ATTRS = {"T", "real", "imag", "values", "flat", "loc", "iloc", "path"}
 SCALAR_ATTRS = {"shape", "ndim", "dtype", "size", "pi", "integer", "int64", "int32", "int16", "int8", "float64", "linalg", "random", "ndarray", "DataFrame",
@@ -77,6 +78,7 @@ class Translator:
         self.renames = {}        # module -> {local alias: imported name}
         self.bases, self.class_module = {}, {}
         self.getters, self.setters = {}, {}      # property name -> [qual]
+        self.used = set()        # (table, callee name) pairs the translation relied on
 
     # ------------------------------------------------------------ collection
     def load(self):
@@ -208,6 +210,9 @@ class Translator:
                     self.expr(f, c)
             return self.alias_of(f, [self.expr(f, e.elt)])
         if isinstance(e, ast.Lambda):
+            for sub in ast.walk(e.body):      # a lambda cannot assign, but it could call a mutating method on a captured object
+                if isinstance(sub, ast.Call) and isinstance(sub.func, ast.Attribute) and (sub.func.attr in METHOD_WRITE or sub.func.attr in NP_WRITE_FIRST):
+                    raise TranslationError(f"{f.qual}: lambda at line {e.lineno} calls the mutating method .{sub.func.attr}()")
             return self.fresh(f)
         if isinstance(e, ast.Call):
             return self.call(f, e)
@@ -250,12 +255,16 @@ class Translator:
         else:
             raise TranslationError(f"{f.qual}: call of {type(fn).__name__} at line {e.lineno}")
         is_np = isinstance(fn, ast.Attribute) and isinstance(fn.value, ast.Name) and fn.value.id in ("np", "numpy")
+        if "copy" in kw and name not in self.by_name:      # copy=... given explicitly (array(x, copy=False), astype(t, copy=False), ...): may alias
+            return self.alias_of(f, args + ([recv] if recv is not None else []))
         if is_np:
             if "out" in kw:
                 return self.alias_of(f, [kw["out"]])
             if name in NP_FRESH:
+                self.used.add(("np_fresh", name))
                 return self.fresh(f)
             if name in NP_ALIAS:
+                self.used.add(("np_alias", name))
                 return self.alias_of(f, args)
             if name in NP_WRITE_FIRST and pos:
                 f.body.append(("write", pos[0]))
@@ -284,19 +293,24 @@ class Translator:
         # external callees
         if isinstance(fn, ast.Name):
             if name in FRESH_FUNCS or name in f.vars:      # a local callable is a user-supplied function (score, method, func): trusted not to mutate
+                self.used.add(("fresh", name) if name in FRESH_FUNCS else ("user_callable", name))
                 return self.fresh(f)
             if name in ALIAS_FUNCS:
+                self.used.add(("alias", name))
                 if name == "getattr":
                     return self.alias_of(f, args + [self.attr(f, a) for a in sorted(self.classes.get(f.cls, set()))])
                 return self.alias_of(f, args)
             raise TranslationError(f"{f.qual}: external function {name} is not classified (line {e.lineno})")
         if name in METHOD_WRITE:
+            self.used.add(("method_write", name))
             f.body.append(("write", recv))
             f.body += [("alias", recv, a) for a in args]
             return self.alias_of(f, [recv] + args)
         if name in METHOD_FRESH:
+            self.used.add(("method_fresh", name))
             return self.fresh(f)
         if name in METHOD_ALIAS:
+            self.used.add(("method_alias", name))
             return self.alias_of(f, [recv] + (args if name == "get" else []))
         raise TranslationError(f"{f.qual}: method .{name}() is not classified (line {e.lineno})")
 
@@ -444,6 +458,13 @@ class Translator:
         for dflt in a.defaults + [d for d in a.kw_defaults if d is not None]:
             self.expr(f, dflt)
         self.stmts(f, f.node.body)
+        if "<" in f.qual:
+            # a nested function is translated on its own: a variable captured from the enclosing function would be lost, so a
+            # nested function that performs any in-place write while using names it does not bind itself is not accepted
+            bound = {f.vars[n] for n in f.explicit} | {s[1] for s in f.body if s[0] in ("alias", "fresh")}
+            free = {v for n, v in f.vars.items() if v not in bound and not n.startswith(("%t", "self")) and n not in ("np", "numpy")}
+            if free and any(s[0] == "write" for s in f.body):
+                raise TranslationError(f"{f.qual}: nested function writes in place and captures names from the enclosing scope")
 
     def run(self):
         self.load()
@@ -634,6 +655,8 @@ def static_part(chk):
         chk.violation("proof", "translator-fail-closed", f"stage G: the translator cannot classify a construct of the current source: {e}", {"error": str(e)})
         chk.extra["static"] = {"error": str(e)}
         return
+    from . import effects_tables
+    chk.extra["external_tables"] = effects_tables.validate(tr.used, chk)
     ents = tr.entries()
     body = (src + "\nEval vm_compute in history_safe_fast prog entries nglobals.\n"
             "Eval vm_compute in tainted_with (summaries_fast prog) entries nglobals.\n"
